@@ -447,7 +447,7 @@ func getEnv(backend string, shadow bool) (*dbEnv, error) {
 		return nil, err
 	}
 	e := &dbEnv{backend: backend, shadow: shadow, name: name, ctrl: ctrl, st: ctrl.VerifStorage()}
-	if b, ok := e.st.(*bbolt.BBolt); ok {
+	if b, ok := unwrapStore(e.st).(*bbolt.BBolt); ok {
 		b.VerifNoBatchDelay()
 	}
 	envs[name] = e
@@ -465,7 +465,7 @@ func cleanupEnvs() {
 
 // wipe brings the storage back to the state of a freshly created database.
 func (e *dbEnv) wipe() error {
-	switch s := e.st.(type) {
+	switch s := unwrapStore(e.st).(type) {
 	case *hashmap.HashMap:
 		s.VerifWipe()
 		return nil
@@ -497,7 +497,7 @@ func (e *dbEnv) wipe() error {
 // raw returns the physical contents: key -> canonical text of the stored value.
 func (e *dbEnv) raw() (map[string]string, error) {
 	out := map[string]string{}
-	switch s := e.st.(type) {
+	switch s := unwrapStore(e.st).(type) {
 	case *hashmap.HashMap:
 		for k, r := range s.VerifDump() {
 			out[k] = decode(r).String()
@@ -770,19 +770,65 @@ func buildOps(cfg config, quick bool) []opDef {
 				return result{cls: "ok"}
 			}})
 	}
+	// PutNew of a record object that carries stale metadata: put-new always yields a live record with fresh metadata.
+	// The stale classes: old timestamps and expired; deleted in the past; relative TTL with an expiry in the future; an
+	// absolute expiry in the future. Quick: one class per key; thorough: every class on every key.
+	type staleClass struct {
+		name string
+		m    func(now int64) meta
+	}
+	stale := []staleClass{
+		{"old+expired", func(now int64) meta { return meta{C: t0 - 1000, M: t0 - 900, E: t0 - 800} }},
+		{"deleted-before", func(now int64) meta { return meta{C: t0 - 1000, M: now - 20, D: now - 20} }},
+		{"relative-ttl", func(now int64) meta { return meta{C: t0 - 1000, M: now - 5, E: now + 5, D: -10} }},
+		{"expires-later", func(now int64) meta { return meta{C: now - 50, M: now - 50, E: now + 10} }},
+	}
 	for i, k := range keys {
+		for si, sc := range stale {
+			if quick && si != i%len(stale) {
+				continue
+			}
+			k, sc := k, sc
+			ci, typed := (i+si)%2, (i+si/2)%2 == 0
+			add(opDef{name: fmt.Sprintf("PutNew(%s,c%d,%s,stale:%s)", k, ci+1, kindName(typed), sc.name), kind: "PutNew", mutates: true,
+				run: func(x *exec) result {
+					pre := sc.m(x.now)
+					return errResult(x.iface.PutNew(mkRecord(x.env.name, k, contents[ci], typed, &pre)))
+				},
+				ref: func(m *model) result {
+					e := &entry{c: contents[ci]}
+					e.m.update(m.now)
+					m.recs[k] = e
+					m.dirty = true
+					return result{cls: "ok"}
+				}})
+		}
+	}
+	// --- Renew: get a record, delete it through the interface, then PutNew the object obtained by Get (object reuse
+	// after Delete: with hashmap or behind a cache that object is the one the Delete marked as deleted)
+	for i, k := range keys {
+		if quick && i != 0 && k != "a/b" {
+			continue // quick: the first key and the key of the storage seeds
+		}
 		k := k
-		ci, typed := i%2, i%2 == 0
-		// the record carries old metadata (created long ago, already expired): PutNew must reset it
-		add(opDef{name: fmt.Sprintf("PutNew(%s,c%d,%s,stale-meta)", k, ci+1, kindName(typed)), kind: "PutNew", mutates: true,
+		add(opDef{name: "Renew(" + k + ")", kind: "Renew", mutates: true,
 			run: func(x *exec) result {
-				pre := &meta{C: t0 - 1000, M: t0 - 900, E: t0 - 800}
-				return errResult(x.iface.PutNew(mkRecord(x.env.name, k, contents[ci], typed, pre)))
+				r, err := x.iface.Get(x.full(k))
+				if err != nil {
+					return errResult(err)
+				}
+				if err := x.iface.Delete(x.full(k)); err != nil {
+					return result{cls: "error", err: "Delete after Get: " + err.Error()}
+				}
+				return errResult(x.iface.PutNew(r))
 			},
 			ref: func(m *model) result {
-				e := &entry{c: contents[ci]}
+				e := m.visible(k)
+				if e == nil {
+					return result{cls: "notfound"}
+				}
+				e.m = meta{}
 				e.m.update(m.now)
-				m.recs[k] = e
 				m.dirty = true
 				return result{cls: "ok"}
 			}})
@@ -1429,7 +1475,7 @@ func dirtyAfter(ops []opDef, pre, hist []int) bool {
 	d := false
 	for _, oi := range append(append([]int{}, pre...), hist...) {
 		switch ops[oi].kind {
-		case "Put", "PutNew", "Resave":
+		case "Put", "PutNew", "Resave", "Renew":
 			d = true
 		case "Flush", "FlushCache":
 			d = false
@@ -1673,15 +1719,15 @@ func main() {
 		}
 
 		c.Rule("breadth-first search over histories of database.Interface operations on the real code, per configuration backend {hashmap,bbolt,fstree; thorough: badger} x shadow-delete {off,on} x cache {none, read cache size 2, delayed write cache size 2 (hashmap, bbolt)} and per initial state: 5 storage contents (empty, one live, one shadow-deleted, one expired record, one with a relative expiry) and, behind a cache, 3 non-initial interface states reached by a fixed prefix run through the interface under test (three puts of which the oldest was evicted; a put plus a cached get of another key; a cache full of read entries); " +
-			"alphabet per configuration: Get, Put (typed struct / wrapped JSON twins, 2 contents), PutNew (record with stale metadata), Resave (Get then Put of the same object), Delete, SetAbsoluteExpiry (past, +10 s), SetRelativateExpiry(10), PutMany (2 batches of two records, one deleted), Purge (2 queries), 10 s / 20 s pass on the manual clock, MaintainRecordStates (threshold now / now-15 s), Maintain, FlushCache and Flush = one DelayedCacheWriter run ended by its context (delayed writes only), Put of an already deleted record over 4 keys sharing prefixes and a path separator; " +
+			"alphabet per configuration: Get, Put (typed struct / wrapped JSON twins, 2 contents), PutNew (record object with stale metadata: old+expired / deleted before / relative TTL / expiring later), Resave (Get then Put of the same object), Renew (Get, Delete, then PutNew of the object obtained by Get), Delete, SetAbsoluteExpiry (past, +10 s), SetRelativateExpiry(10), PutMany (2 batches of two records, one deleted), Purge (2 queries), 10 s / 20 s pass on the manual clock, MaintainRecordStates (threshold now / now-15 s), Maintain, FlushCache and Flush = one DelayedCacheWriter run ended by its context (delayed writes only), Put of an already deleted record over 4 keys sharing prefixes and a path separator; " +
 			"every history runs on a wiped database through a fresh Interface and on a map[string]entry model; after the last step Exists+Get of all 4 keys (cached keys first, so that the probe's own cache misses cannot evict a stale entry unseen) and 19 queries (5 key prefixes; all 18 operators; and/or/not nested to depth 2) are compared; states de-duplicated on (model, raw storage dump, ARC cache lists and entries, delayed write set); " +
 			"non-trivial = distinct reached states holding at least two records or at least one deleted/expired record. " +
-			"Plus two scenario families: bulk (N records in mixed states, N around bbolt's purge batch size 1000 and up to several B+tree pages, then Purge by prefix / by condition or MaintainRecordStates, compared with the model) storage-error (a query that meets an unreadable raw record must end its stream and report through Iterator.Err()) and condition (input enumeration: every operator x operand values x field values at the numeric boundaries 0, +-1, 2^31, 2^53-1, 2^53, 2^53+1, MaxInt64-1, MaxInt64, MinInt64, MinInt64+1, floats incl. non-integers and 1e300, strings incl. empty/unicode/escapes, bools in all accepted spellings, string lists incl. empty, plus Not of every leaf and And/Or pairs, evaluated on a typed record and on its marshalled-and-reloaded twin against a reference evaluator of the README operator table). The outcome class evicted-pending-write counts the delayed writes that a step pushed out of the cache")
+			"Plus two scenario families: bulk (N records in mixed states, N around bbolt's purge batch size 1000 and up to several B+tree pages, then Purge by prefix / by condition or MaintainRecordStates, compared with the model) storage-error (a query that meets an unreadable raw record must end its stream and report through Iterator.Err()) and condition (input enumeration: every operator x operand values x field values at the numeric boundaries 0, +-1, 2^31, 2^53-1, 2^53, 2^53+1, MaxInt64-1, MaxInt64, MinInt64, MinInt64+1, floats incl. non-integers and 1e300, strings incl. empty/unicode/escapes, bools in all accepted spellings, string lists incl. empty, plus Not of every leaf and And/Or pairs, evaluated on a typed record and on its marshalled-and-reloaded twin against a reference evaluator of the README operator table). Scenario put-during-flush (hashmap, bbolt): a storage type registered by the harness wraps the real storage and calls back when a flush's batch hands over its first record; if the delayed write set's lock is free at that moment the harness puts (same key / another key) right there, otherwise right after the flush (a concurrent put could only wait); after one more flush the storage must hold the newest put. The outcome class evicted-pending-write counts the delayed writes that a step pushed out of the cache")
 		c.Assume("operators applied to a field of another type (float operators on an integer field, integer operators on a float or string field, string operators on an integer field) are outside the README operator table; there the struct and the JSON accessor visibly differ (e.g. GetFloat of an integer field: struct refuses, JSON converts), so these cases are evaluated and counted (outcome classes cross-type:*) but not asserted")
 		c.Assume("metadata semantics are those documented in record/meta.go: a save stamps Modified (and Created if unset) and recomputes Expires from a relative TTL; a TTL set through Interface.SetRelativateExpiry therefore takes effect at the next save (not asserted otherwise); a record is expired when now > Expires")
 		c.Assume("a backend that does not implement Purge / PutMany and answers ErrNotImplemented is taken as 'operation not offered' (no effect in the model); the count returned by Purge may or may not include expired records that were not yet deleted")
 		c.Assume("databases are reused between histories by wiping all records (hashmap: new map; bbolt: bucket dropped and re-created; fstree: directory emptied; badger: all keys deleted); the read cache's clock is replaced by the manual clock so that cache TTLs and record expiry run on the same clock, as they do in production")
-		c.Assume("the interface holds all permissions (Local+Internal), as PutMany and delayed writes require; permission clauses belong to C03. Through a delayed write cache, only Get/Put/PutNew/Resave/Delete/Flush/time are offered while a delayed write is pending; every other operation and all queries run after a flush")
+		c.Assume("the interface holds all permissions (Local+Internal), as PutMany and delayed writes require; permission clauses belong to C03. Through a delayed write cache, only Get/Put/PutNew/Resave/Renew/Delete/Flush/time are offered while a delayed write is pending; every other operation and all queries run after a flush")
 		c.Assume("portbase's own wall-clock timeouts (query executors: consumer must take a record within 1 s; PutMany: next record within 1 s) can only fire here when the process is starved of CPU, as the harness drains and feeds immediately; such a run is repeated (4 attempts) and otherwise reported as an engine error, never as a finding")
 		c.Extra("depth_note", "history depth = max depth, except one less for badger (thorough) and for fstree behind a read cache in the quick tier")
 
